@@ -268,6 +268,69 @@ def w_uf_real(cfg, tier):
     return col.result()
 
 
+DECODER_CLASS = {'bposd': 'BeliefPropagationOSDDecoder', 'matching': 'MatchingDecoder',
+                 'unionfind': 'UnionFindDecoder', 'mbp': 'MemoryBeliefPropagationDecoder'}
+
+
+def w_real_dtype(cfg, tier):
+    """cfg = 'real-dtype <decoder> <code> <dtype> [l1]': the real decoder on the syndrome of a solver-chosen
+    (realised) error of weight <= 2, handed over in another accepted array representation (bool / int64 /
+    uint8): shape, binary, syndrome reproduced, no exception, caller's array untouched.  `l1` pins the
+    letter of the first error (splits the configuration over processes)."""
+    import panqec.decoders as pd_
+    from panqec.error_models import PauliErrorModel
+    parts = cfg.split(' ')
+    Dec = getattr(pd_, DECODER_CLASS[parts[1]])
+    code = common.make_code(parts[2])
+    dtype = parts[3]
+    n = code.n
+    col = hz.Collector(cfg)
+    col.encoded(Dec.decode)
+    em = PauliErrorModel(0.2, 0.3, 0.5)
+    eng = Engine(name=cfg, max_paths=20000)
+    with eng:
+        q1 = eng.integer('q1', 0, n - 1)
+        q2 = eng.integer('q2', 0, n - 1)
+        l1 = eng.integer('l1', 1, 3)          # 1=X 2=Z 3=Y
+        l2 = eng.integer('l2', 0, 3)          # 0 = no second error
+        eng.assume_base((q1 <= q2).t)
+        if len(parts) > 4:
+            eng.assume_base((l1 == int(parts[4])).t)
+
+        def fn():
+            e = np.zeros(2 * n, dtype=np.uint8)
+            for q, l in ((int(q1), int(l1)), (int(q2), int(l2))):
+                if l & 1:
+                    e[q] ^= 1
+                if l & 2:
+                    e[n + q] ^= 1
+            s = code.measure_syndrome(e).astype(dtype)
+            keep = s.copy()
+            c = np.asarray(Dec(code, em, 0.1).decode(s))
+            ok = c.shape == (2 * n,) and bool(np.isin(c, (0, 1)).all()) and \
+                not code.measure_syndrome((e + c.astype(np.uint8)) % 2).any() and \
+                s.dtype == keep.dtype and bool((s == keep).all())
+            return e.tolist(), bool(ok)
+        ps = eng.explore(fn)
+    col.absorb(eng)
+    bad = []
+    w = [None]
+    for p in ps:
+        if p.exc is not None:
+            bad.append(z3_and(p.pc))
+            w[0] = w[0] or dict(exception=f'{type(p.exc).__name__}: {p.exc}', dtype=dtype, decoder=parts[1])
+            continue
+        e, ok = p.value
+        bad.append(z3_and(p.pc + [z3.BoolVal(not ok)]))
+        if not ok and (w[0] is None or 'error' not in w[0]):
+            w[0] = dict(error=e, dtype=dtype, decoder=parts[1])
+    col.prove(f'C05/real-dtype/{parts[1]}/valid-correction-for-a-{dtype}-syndrome', eng.base, z3_or(bad),
+              lambda m: w[0],
+              f'{len(ps)} realised errors of weight <= 2 (positions and letters solver-chosen), real {Dec.__name__}, '
+              f'syndrome passed as {dtype}')
+    return col.result()
+
+
 def w_real_reuse(cfg, tier):
     """cfg = 'real-reuse <decoder> <code>': ONE real decoder object (real engines) decodes the syndromes of
     two solver-chosen (realised) single-qubit errors one after the other; the second correction must
@@ -412,6 +475,7 @@ def w_constructible(cfg, tier):
 
 def worker(cfg, tier='quick'):
     return {'matching': w_matching, 'bposd': w_bposd, 'unionfind': w_unionfind, 'sweepmatch': w_sweepmatch, 'uf-real': w_uf_real, 'real-reuse': w_real_reuse,
+            'real-dtype': w_real_dtype,
             'constructible': w_constructible}[cfg.split()[0]](cfg, tier)
 
 
@@ -431,6 +495,24 @@ def replay(path):
                 dec = DECODERS[w['decoder']](code, PauliErrorModel(0.2, 0.3, 0.5), 0.1)
                 c0 = np.asarray(dec.decode(np.zeros(code.n_stabilizers, dtype=np.uint8)))
                 bad = c0.shape != (2 * code.n,) or bool(c0.any())
+        elif w.get('dtype'):
+            import panqec.decoders as pd_
+            from panqec.error_models import PauliErrorModel
+            parts = cfg.split(' ')
+            code = common.make_code(parts[2])
+            dec = getattr(pd_, DECODER_CLASS[parts[1]])(code, PauliErrorModel(0.2, 0.3, 0.5), 0.1)
+            if 'error' not in w:
+                print('worker raised', w.get('exception'))
+                res = worker(cfg)
+                bad = any(o['oid'] == oid and o['verdict'] == 'sat' for o in res['obs'])
+            else:
+                e = np.array(w['error'], dtype=np.uint8)
+                s = code.measure_syndrome(e).astype(w['dtype'])
+                keep = s.copy()
+                c = np.asarray(dec.decode(s))
+                print('error', e.tolist(), 'syndrome', s.tolist(), 'correction', c.tolist())
+                bad = c.shape != (2 * code.n,) or not np.isin(c, (0, 1)).all() or \
+                    bool(code.measure_syndrome((e + c.astype(np.uint8)) % 2).any()) or not (s == keep).all()
         elif w.get('reuse'):
             import panqec.decoders as pd_
             from panqec.error_models import PauliErrorModel
@@ -517,6 +599,16 @@ def configs(tier):
             'real-reuse unionfind Toric2DCode(3,3)']
     out += ['uf-real Toric2DCode(2,2)', 'uf-real Toric2DCode(2,3)', 'uf-real Toric2DCode(3,3)'] + \
         (['uf-real Toric2DCode(3,4)', 'uf-real Toric2DCode(4,4)'] if tier != 'quick' else [])
+    # other accepted array representations of the syndrome, real engines
+    for dt in ('bool', 'int64'):
+        out += [f'real-dtype matching Toric2DCode(3,3) {dt}', f'real-dtype bposd Toric2DCode(2,3) {dt}',
+                f'real-dtype matching Planar2DCode(3,3) {dt}', f'real-dtype unionfind Toric2DCode(3,3) {dt}']
+    out += [f'real-dtype unionfind Toric2DCode(4,4) bool {l}' for l in (1, 2, 3)]
+    if tier != 'quick':
+        out += [f'real-dtype unionfind Toric2DCode(4,4) int64 {l}' for l in (1, 2, 3)]
+        out += [f'real-dtype unionfind Toric2DCode(4,5) bool {l}' for l in (1, 2, 3)]
+        out += [f'real-dtype {d} {c} bool' for d in ('matching', 'bposd')
+                for c in ('Toric2DCode(3,4)', 'RotatedPlanar2DCode(3,3)/XZZX/x', 'Toric2DCode(3,3)/XY')]
     out += ['sweepmatch Toric3DCode(2,2,2)', 'sweepmatch Planar3DCode(2,2,2)', 'sweepmatch RotatedPlanar3DCode(2,2,2)',
             'sweepmatch RotatedToric3DCode(2,2,2)']
     return out
